@@ -16,21 +16,30 @@ type MarshalToCase struct {
 	DstLen   int         `json:"dst_len"`
 	Fill     string      `json:"fill"` // "zero" | "ff" | "ee" | "random"
 	FillSeed uint64      `json:"fill_seed"`
+	SpareCap int         `json:"spare_cap"` // the destination is the first DstLen bytes of an arena this much larger (a re-sliced pooled buffer)
 }
 
 var subC04 = register("C04", "marshalto", checkC04)
 
-func (c *MarshalToCase) dst() []byte {
+func (c *MarshalToCase) arena() []byte {
+	n := c.DstLen + c.SpareCap
 	switch c.Fill {
 	case "zero":
-		return make([]byte, c.DstLen)
+		return make([]byte, n)
 	case "ff":
-		return bytes.Repeat([]byte{0xFF}, c.DstLen)
+		return bytes.Repeat([]byte{0xFF}, n)
 	case "ee":
-		return bytes.Repeat([]byte{0xEE}, c.DstLen)
+		return bytes.Repeat([]byte{0xEE}, n)
 	default:
-		return expand(c.FillSeed, 0, c.DstLen)
+		return expand(c.FillSeed, 0, n)
 	}
+}
+
+// dst returns the destination (length DstLen, capacity DstLen+SpareCap) and the arena it lives in.
+func (c *MarshalToCase) dst() ([]byte, []byte) {
+	a := c.arena()
+
+	return a[:c.DstLen], a
 }
 
 func checkC04(r *run, c *MarshalToCase) (CaseInfo, error) {
@@ -77,9 +86,16 @@ func checkC04(r *run, c *MarshalToCase) (CaseInfo, error) {
 	ci.Nontrivial = (dirty && (extPad || m.PaddingSize >= 2)) || c.DstLen == size-1 || c.DstLen == size
 
 	// Packet.MarshalTo
-	dst := c.dst()
+	dst, arena := c.dst()
 	prior := clone(dst)
+	priorArena := clone(arena)
 	n, err := p.MarshalTo(dst)
+	if !bytes.Equal(arena[len(dst):], priorArena[len(dst):]) {
+		return ci, failf("Packet.MarshalTo (dst len %d, cap %d, need %d) wrote beyond len(dst) into the destination's spare capacity", len(dst), cap(dst), size)
+	}
+	if c.SpareCap > 0 {
+		ci.class("spare-capacity")
+	}
 	if c.DstLen < size {
 		if err == nil {
 			return ci, failf("Packet.MarshalTo into %d bytes (need %d) succeeded with n=%d", c.DstLen, size, n)
@@ -110,12 +126,21 @@ func checkC04(r *run, c *MarshalToCase) (CaseInfo, error) {
 		if !bytes.Equal(dst[n:], prior[n:]) {
 			return ci, failf("Packet.MarshalTo modified bytes beyond the %d it reported", n)
 		}
+		// a second call on the same packet into another dirty buffer gives the same bytes
+		dst2 := bytes.Repeat([]byte{0x5A}, len(dst))
+		if n2, err := p.MarshalTo(dst2); err != nil || n2 != n || !bytes.Equal(dst2[:n2], want) || !bytes.Equal(dst2[n2:], bytes.Repeat([]byte{0x5A}, len(dst)-n2)) {
+			return ci, failf("a second Packet.MarshalTo of the same packet differs (n=%d err=%v)", n2, err)
+		}
 	}
 
 	// Header.MarshalTo with the same destination length
-	hdst := c.dst()
+	hdst, harena := c.dst()
 	hprior := clone(hdst)
+	hpriorArena := clone(harena)
 	hn, err := p.Header.MarshalTo(hdst)
+	if !bytes.Equal(harena[len(hdst):], hpriorArena[len(hdst):]) {
+		return ci, failf("Header.MarshalTo (dst len %d, cap %d, need %d) wrote beyond len(dst) into the destination's spare capacity", len(hdst), cap(hdst), hsize)
+	}
 	if c.DstLen < hsize {
 		if err == nil || !errors.Is(err, io.ErrShortBuffer) || hn != 0 {
 			return ci, failf("Header.MarshalTo into %d bytes (need %d): n=%d err=%v, want a short-buffer error", c.DstLen, hsize, hn, err)
@@ -155,9 +180,13 @@ func genMarshalToCase(t *rapid.T) *MarshalToCase {
 	c.DstLen = rapid.OneOf(
 		rapid.SampledFrom([]int{0, 1, 11, 12, hs - 1, hs, hs + 1, size - 1, size, size, size + 1, size + 7}),
 		rapid.IntRange(0, size+16),
+		rapid.SampledFrom([]int{size + 64, size + 255, size + 256, size + 1500, size + 4096, size + 65536}),
 	).Draw(t, "dstlen")
 	if c.DstLen < 0 {
 		c.DstLen = 0
+	}
+	if genBool(t, "sparecap") {
+		c.SpareCap = rapid.SampledFrom([]int{1, 2, 3, 4, 8, 16, 64, 300, 2000}).Draw(t, "sparecapval")
 	}
 	c.Fill = rapid.SampledFrom([]string{"zero", "ff", "ee", "random", "random"}).Draw(t, "fill")
 	if c.Fill == "random" {
@@ -167,7 +196,7 @@ func genMarshalToCase(t *rapid.T) *MarshalToCase {
 	return c
 }
 
-const ruleC04 = "C01's well-formed packets x destination lengths {0,1,11,12,hdr-1,hdr,hdr+1,size-1,size,size+1,size+7} or uniform in [0,size+16] x prior contents {zero,0xFF,0xEE,random}; oracle: short destination -> io.ErrShortBuffer with n=0, otherwise n=MarshalSize, bytes identical to Marshal(), bytes beyond n untouched; same for Header.MarshalTo. Non-trivial = dirty destination with extension padding or >=2 RTP padding octets, or destination length in {size-1,size}; distinct = FNV-64 of the JSON case"
+const ruleC04 = "C01's well-formed packets x destination lengths {0,1,11,12,hdr-1,hdr,hdr+1,size-1,size,size+1,size+7} or uniform in [0,size+16] x prior contents {zero,0xFF,0xEE,random} x spare capacity behind the destination (0 or 1-2000 bytes: a re-sliced pooled buffer); oracle: short destination -> io.ErrShortBuffer with n=0, otherwise n=MarshalSize, bytes identical to Marshal(), bytes beyond n untouched; same for Header.MarshalTo. Non-trivial = dirty destination with extension padding or >=2 RTP padding octets, or destination length in {size-1,size}; distinct = FNV-64 of the JSON case"
 
 func TestC04(t *testing.T) {
 	r := begin(t, "C04", "exploration", ruleC04)
